@@ -1,4 +1,5 @@
 import WcModel.Model.Flags
+import WcModel.Model.Posix
 /-
   `_wcparse.WcSplit` — splitting a pattern at top-level unescaped `|` (SPLIT).
 
@@ -36,6 +37,13 @@ def references (cfg : Cfg) (seq : Bool) : List Char → Option (List Char)
     else if c = '/' then (if seq && cfg.pathname then none else some r)
     else some r
 
+/-- `i.match(RE_POSIX)`: the unread text after `:name:]` if that is what comes next, else unchanged.
+    The test is the parser's own `matchPosix` (fix: D34) -/
+def skipPosix (rest : List Char) : List Char :=
+  match matchPosix rest with
+  | some (_, _, rest') => rest'
+  | none => rest
+
 /-- the `while c != ']'` loop of `_sequence` -/
 def seqLoop (cfg : Cfg) : Nat → Char → List Char → Option (List Char)
   | 0, _, _ => none
@@ -45,26 +53,31 @@ def seqLoop (cfg : Cfg) : Nat → Char → List Char → Option (List Char)
       let after : Option (List Char) :=
         if c = '\\' then references cfg true rest
         else if c = '/' then (if cfg.pathname then none else some rest)
+        else if c = '[' then some (skipPosix rest)   -- a POSIX class is ONE member (fix: D34)
         else some rest
       match after with
       | none => none
       | some [] => none                      -- `c = next(i)` at the end: StopIteration
       | some (c' :: r) => seqLoop cfg fuel c' r
 
-/-- `_sequence(i)`: `none` = StopIteration (the caller rewinds) -/
+/-- `_sequence(i)`: `none` = StopIteration (the caller rewinds).  The bracket is read the way the
+    parser `WcParse._sequence` reads it (fix: D34): negation is `!` or `^`; a first member `[` (a
+    POSIX class if `:name:]` follows), `-` or `]` is a literal member -/
 def sequence (cfg : Cfg) (rest : List Char) : Option (List Char) :=
   match rest with
   | [] => none
   | c :: r =>
-    -- if c == '!': c = next(i)
+    -- if c in ('!', '^'): c = next(i)
     let s1 : Option (Char × List Char) :=
-      if c = '!' then (match r with | [] => none | c' :: r' => some (c', r')) else some (c, r)
+      if c = '!' ∨ c = '^' then (match r with | [] => none | c' :: r' => some (c', r')) else some (c, r)
     match s1 with
     | none => none
     | some (c1, r1) =>
-      -- if c in ('^', '-', '['): c = next(i)
+      -- if c == '[': i.match(RE_POSIX); c = next(i)   elif c in ('-', ']'): c = next(i)
       let s2 : Option (Char × List Char) :=
-        if c1 = '^' ∨ c1 = '-' ∨ c1 = '[' then (match r1 with | [] => none | c' :: r' => some (c', r')) else some (c1, r1)
+        if c1 = '[' then (match skipPosix r1 with | [] => none | c' :: r' => some (c', r'))
+        else if c1 = '-' ∨ c1 = ']' then (match r1 with | [] => none | c' :: r' => some (c', r'))
+        else some (c1, r1)
       match s2 with
       | none => none
       | some (c2, r2) => seqLoop cfg (r2.length + 1) c2 r2
